@@ -8,7 +8,7 @@ ID = 'C01'
 LEVEL = 'exploration'
 SALTS = 8
 GUARD_STEPS = 250
-RULE = ('every 3rd run = its slice of a systematic enumeration: every quantifier node shape ([negated] quantifier over a [negated] body from 6 bodies, 48 shapes) in 23 small first-order contexts, in one logic per distinct rule-implementation group (quick) / every quantified logic (thorough), one seeded configuration each, plus the propositional node shapes in literal contexts that C03 sweeps (soundness side) and a propositional scale sweep (n = 1..20 copies of one letter against n-1 / n / n+1 distinct letters, invalid by construction with a known counter-valuation); the other runs: each run = one generated argument (propositional / modal / first-order with identity; 30% mutated library examples) '
+RULE = ('every 3rd run = its slice of a systematic enumeration: every quantifier node shape ([negated] quantifier over a [negated] body from 6 bodies, 48 shapes) in 29 small first-order contexts, in one logic per distinct rule-implementation group (quick) / every quantified logic (thorough), one seeded configuration each, plus the propositional node shapes in literal contexts that C03 sweeps (soundness side) and a propositional scale sweep (n = 1..20 copies of one letter against n-1 / n / n+1 distinct letters, invalid by construction with a known counter-valuation); the other runs: each run = one generated argument (propositional / modal / first-order with identity; 30% mutated library examples) '
         'in one of the 57 logics (stratified), proved K times (quick 3, thorough 6) under different optimisation-option '
         'combinations, drive modes, seeded tie-break orders and cache sizes; whenever a run completes with every branch closed, '
         '(a) the bounded countermodel search of the reference semantics R1 (exhaustive valuations for propositional arguments; '
@@ -62,6 +62,9 @@ def _fo_enum():
     contexts = [(('X',), c) for c in c8]
     contexts += [(('X', Fm), c) for c in (Gm, neg(Gm), Q('Existential', P(G, x)), Q('Universal', P(G, x)))]
     contexts += [(('X', neg(Fm)), c) for c in (Gm, Q('Existential', P(G, x)))]
+    # ... next to a premise that forces the matrix to be classical on every object
+    EM = Q('Universal', ('O', 'Disjunction', (P(F, x), neg(P(F, x)))))
+    contexts += [(('X', EM, Fm), c) for c in (Gm, neg(Fm))] + [(('X', EM), c) for c in c8[:4]]
     contexts += [((p,), 'X') for p in c8] + [((), 'X')]
     return shapes, contexts
 FO_SHAPES, FO_CONTEXTS = _fo_enum()
